@@ -58,7 +58,11 @@ class C03(IdProp):
     def run(self, case):
         from y0.algorithm.identify import identify_outcomes
         g, X, Y, Z = case["g"], case["X"], case["Y"], case["Z"]
-        gr = GG.to_y0(g)
+        def warm(partial, present):
+            xs, ys, zs = ({GG.V(v) for v in S} & present for S in (X, Y, Z))
+            if ys:
+                identify_outcomes(partial, xs, ys, zs)
+        gr = GG.to_y0(g, warm=warm)
         before = GG.snapshot(gr)
         with TopoRecorder() as rec:
             try:
